@@ -331,6 +331,17 @@ def _r7_memo(chk: Check) -> None:
                                     'entries are evicted, so a second parse of the same text can build a different tree than the cached one' % memo)
         chk.require(not problems, R7, 'action of `%s`' % p, '%s:%d' % (g.module.rel, p.line),
                     '; '.join(sorted(set(problems))) or 'builds its node itself')
+    # what is computed while the tree is built is frozen into a cached tree, and computed afresh by an uncached parse.  Two places
+    # compute at that moment: the default factories of node fields, and the token rules (numerals converted under the decimal
+    # context of the moment)
+    for cls_, fld_, r_, line_, node_ in common.default_factory_nodes(chk):
+        ok_ = r_[0] == 'cls' or (r_[0] == 'builtin' and r_[1] in ('list', 'dict', 'tuple', 'set', 'frozenset'))
+        chk.require(ok_, R7, 'default factory %s.%s' % (cls_, fld_), '%s:%d' % (F.cls(cls_).module.rel, line_),
+                    'builds a constant node / empty container' if ok_ else
+                    'the default of this field is computed by `%s` when the node is built: what that reads (a module-level switch, a '
+                    'registry) at parse time stays in a cached tree, while an uncached parse reads it again at every call' % norm(node_)[:80])
+    from . import numeric as N_
+    N_.context_untouched(chk, R7)
 
 
 def _r4_r5(chk: Check, R4: str, R5: str) -> None:
